@@ -577,6 +577,14 @@ impl Debugger {
                     // no need to update expl context cause next stop been soon, on entry point
                 }
                 StopReason::NoSuchProcess(_) => {
+                    // the debugee is marked as exited at this point: put breakpoints and
+                    // watchpoints into the same state as the `DebugeeExit` handler does,
+                    // otherwise they are lost for the next run
+                    _ = self.watchpoints.clear_local_disable_global(
+                        self.debugee.tracee_ctl(),
+                        &mut self.breakpoints,
+                    );
+                    _ = self.breakpoints.disable_all_breakpoints(&self.debugee);
                     return Err(ProcessNotStarted);
                 }
                 StopReason::Breakpoint(pid, current_pc) => {
